@@ -618,7 +618,7 @@ def run_unit(name, repo_root=None, want_canaries=True, timeout_ms=None):
                                "secs": 0.0, "backend": "z3", "note": rp.get("note", ""), "reason": "counterexample with small concrete dimensions (clause of the unrolled loop)", "replay": rp}
     # phase 3: full budget (z3 then cvc5) for what is still open and has no counterexample
     still = [(ctx, ob) for ctx, ob, _ in open_jobs if ob.name not in found]
-    res3 = _solve_portfolio(still, timeout_ms or vc.Z3_TIMEOUT_MS)
+    res3 = _solve_portfolio(still, (timeout_ms or vc.Z3_TIMEOUT_MS) * (3 if thorough else 1))
     for n in open_names:
         if seen.get(n) is None:
             del seen[n]
